@@ -7,6 +7,7 @@ The values of an aggregated cell come from the C09 model (`summarizeCellValues`)
 import Bermuda.Model.Aggregate
 import Bermuda.Spec.C08
 import Bermuda.Lemmas.Aggregate
+import Bermuda.Lemmas.AggregateDates
 namespace Bermuda.Properties.C08
 open Bermuda Generated.Summarize
 
@@ -150,15 +151,48 @@ theorem aggPeriod_error_iff_straddle_partial {q : Int} {u : ResUnit} {init : Dat
   obtain ⟨_, _, _, _, _, _, _, _, hno⟩ := (assignWindows_spec h).2 p hp
   exact hno
 
--- OPEN aggPeriod_error_iff_straddle
--- theorem aggPeriod_error_iff_straddle (hsorted : cells sorted by period_start) (hpos : the step is increasing) :
---     assignWindows q u init cells = .error .triangleError ↔
---       ∃ c ∈ cells, ∃ k, (∀ j < k, (windowAt q u init j).2 < c.ps) ∧ ¬ ((windowAt q u init k).2 < c.ps) ∧
---         (windowAt q u init k).2 < c.pe
--- (missing: the converse direction — that the FIRST window whose end is not before the cell's start is the one
---  the carried `current_init` reaches, which needs sortedness of the cells and transitivity of the date order
---  along the walk; and that no other error pre-empts it.) The harness checks the iff on every generated case
---  against the closed-form `Spec.C08.expectStraddle`.
+/-- **`aggPeriod_error_iff_straddle`.** The window walk over the slice (sorted by `(ps, pe, ev)` as the code
+does) ends in `TriangleError` exactly when some source period starts in a window — the FIRST window, counted from
+the anchor, whose end is not before the period's start — and ends after that window's end. Hypothesis `honly`:
+the walk does not fail for another reason (a refusal of the `Cell` constructor, `ValueError`, or the model's fuel
+bound); such a failure on an earlier cell would pre-empt the `TriangleError`, so the hypothesis is needed for the
+"if" direction in any formulation. -/
+theorem aggPeriod_error_iff_straddle {q : Int} {u : ResUnit} {init : Date} (t : List Cell)
+    (honly : ∀ e, assignWindows q u init (t.mergeSort fun a b => coordCmp a b != .gt) = .error e →
+      e = .triangleError) :
+    assignWindows q u init (t.mergeSort fun a b => coordCmp a b != .gt) = .error .triangleError ↔
+      ∃ c ∈ t, ∃ k, FirstWindow q u init k c.ps ∧ (windowAt q u init k).2 < c.pe := by
+  have hperm : (t.mergeSort fun a b => coordCmp a b != .gt).Perm t := List.mergeSort_perm _ _
+  have hs := sorted_by_ps t
+  constructor
+  · intro h
+    obtain ⟨c, hc, k, h1, h2⟩ := assignWindows_triangleError_first (k0 := 0) (init0 := init) hs
+      (fun _ _ j hj => absurd hj (Nat.not_lt_zero j)) h
+    exact ⟨c, hperm.mem_iff.mp hc, k, h1, h2⟩
+  · rintro ⟨c, hc, k, hfirst, hcross⟩
+    cases h : assignWindows q u init (t.mergeSort fun a b => coordCmp a b != .gt) with
+    | error e => rw [honly e h]
+    | ok rel =>
+      exfalso
+      obtain ⟨hlen, hall⟩ := assignWindows_spec h
+      obtain ⟨rc, hrc⟩ := mem_zip_of_mem_left hlen (hperm.mem_iff.mpr hc)
+      obtain ⟨k', hfirst', hpe⟩ := assignWindows_first (k0 := 0) (init0 := init) hs
+        (fun _ _ j hj => absurd hj (Nat.not_lt_zero j)) h (c, rc) hrc
+      obtain ⟨_, _, _, _, _, _, _, _, hno⟩ := hall (c, rc) hrc
+      have : k = k' := hfirst.unique hfirst'
+      subst this
+      simp only at hpe hno
+      rw [hpe] at hno
+      exact hno hcross
+
+/-- **windows are disjoint** (month units, month-end anchor, positive quantity — the regime of `window_spec`'s
+closed form): an earlier window ends strictly before a later one starts; with `window_consecutive` the windows
+tile the calendar from the anchor on. Window `k` is `[last day of month M + k·q, + 1 day … last day of month
+M + (k+1)·q]`, `M` the month index of the anchor (`window_month_shape_agg`). -/
+theorem window_disjoint_month {q : Int} {init : Date} (hq : 1 ≤ q) (hv : init.valid = true)
+    (he : init.isMonthEnd = true) {j k : Nat} (hjk : j < k) :
+    (windowAt q .month init j).2 < (windowAt q .month init k).1 :=
+  window_disjoint_month_agg hq hv he hjk
 
 /-! ### 4. evaluation aggregation only removes cells -/
 
